@@ -76,6 +76,8 @@ pub fn thread_prefix() -> String {
 
 /// Runs `fut` until it completes or until quiescence is reached (nothing can make progress any more
 /// without a timer or an external action), in which case `None` is returned and `fut` is dropped.
+/// Work done *inside* `fut` itself is not counted as progress: `fut` should only wait for spawned (counted)
+/// tasks, simnet traffic or remoc's internal tasks.
 pub async fn or_quiescent<F: Future>(fut: F) -> Option<F::Output> {
     tokio::select! {
         biased;
